@@ -29,7 +29,8 @@ def renderLevelI (ind : String → String) (c : RenderCfg) (o : RenderOracles) (
 
 def generateCodeI (ind : String → String) (c : RenderCfg) (o : RenderOracles) (g : Graph) (roots : List Node)
     (inj : List (String × String)) (pre : Option String) : Except PyErr (String × NameMap) := do
-  let r ← renderLevelI ind c o g inj (g.models.length + 2) (names0 g) roots
+  let N0 ← prepareNames c o (names0 g) roots
+  let r ← renderLevelI ind c o g inj (g.models.length + 2) N0 roots
   let rs ← renderGensI ind c o g inj r.1 r.2.2
   pure (finishText pre r.2.1 rs, r.1)
 
